@@ -3,6 +3,7 @@
 //! Output: `<hex of to_vec> len=<minicbor::len> dec=<value decoded from those bytes> pos=<position>`; the orchestrator
 //! demands dec == the value given, pos == number of bytes == len.
 //!   BoxA | BoxM | BoxE  <id:u8> <N|u8>            array- / map-encoded struct, enum variant: `Box<Option<u8>>` last
+//!   DecOnlyA | DecOnlyM | EncOnlyA | AliasA  <id:u8> <N|u8>   a type alias of Option<u8> behind decode_with / encode_with only / no codec
 //!   BoxMid              <N|u8> <id:u8>            `Box<Option<u8>>` before a mandatory field
 //!   FltA | FltM | FltE  <id:u8> <f32 bits> <f64 bits>
 //!   OptF                <N|f64 bits> <N|f32 bits>  `Option<f64>`, `Option<f32>` fields
@@ -20,6 +21,20 @@ use std::borrow::Cow;
 #[derive(Encode, Decode, CborLen, Debug, PartialEq)] enum FltE { #[n(0)] V { #[n(0)] id: u8, #[n(1)] a: f32, #[n(2)] b: f64 }, #[n(1)] W(#[n(0)] f64) }
 #[derive(Encode, Decode, CborLen, Debug, PartialEq)] struct OptF { #[n(0)] a: Option<f64>, #[n(1)] b: Option<f32> }
 #[derive(Encode, Decode, CborLen, Debug, PartialEq)] struct CowA<'a> { #[cbor(n(0), with = "minicbor::bytes")] a: Cow<'a, [u8]>, #[n(1)] z: u8 }
+
+/// a nil-able type that is not SPELLED `Option<..>` (the macros decide some things from the spelling, others from the traits)
+type Maybe = Option<u8>;
+fn dec_maybe<'b, C>(d: &mut minicbor::Decoder<'b>, _: &mut C) -> Result<Maybe, minicbor::decode::Error> {
+    if minicbor::data::Type::Null == d.datatype()? { d.skip()?; return Ok(None) }
+    d.u8().map(Some)
+}
+fn enc_maybe<C, W: minicbor::encode::Write>(v: &Maybe, e: &mut minicbor::Encoder<W>, _: &mut C) -> Result<(), minicbor::encode::Error<W::Error>> {
+    match v { None => { e.null()?; } Some(x) => { e.u8(*x)?; } } Ok(())
+}
+#[derive(Encode, Decode, CborLen, Debug, PartialEq)] struct DecOnlyA { #[n(0)] id: u8, #[cbor(n(1), decode_with = "dec_maybe")] m: Maybe }
+#[derive(Encode, Decode, CborLen, Debug, PartialEq)] #[cbor(map)] struct DecOnlyM { #[n(0)] id: u8, #[cbor(n(1), decode_with = "dec_maybe")] m: Maybe }
+#[derive(Encode, Decode, Debug, PartialEq)] struct EncOnlyA { #[n(0)] id: u8, #[cbor(n(1), encode_with = "enc_maybe")] m: Maybe }
+#[derive(Encode, Decode, CborLen, Debug, PartialEq)] struct AliasA { #[n(0)] id: u8, #[n(1)] m: Maybe }
 
 fn opt_u8(s: &str) -> Option<Option<u8>> { if s == "N" { Some(None) } else { s.parse::<u8>().ok().map(Some) } }
 fn show_opt(o: &Option<u8>) -> String { match o { None => "N".into(), Some(v) => v.to_string() } }
@@ -39,6 +54,18 @@ pub fn run(w: &[&str]) -> String {
         ("BoxA", [id, p]) => rt(&BoxA { id: id.parse().ok()?, parent: Box::new(opt_u8(p)?) }, |x| format!("{},{}", x.id, show_opt(&x.parent))),
         ("BoxM", [id, p]) => rt(&BoxM { id: id.parse().ok()?, parent: Box::new(opt_u8(p)?) }, |x| format!("{},{}", x.id, show_opt(&x.parent))),
         ("BoxE", [id, p]) => rt(&BoxE::Leaf { id: id.parse().ok()?, parent: Box::new(opt_u8(p)?) }, |x| match x { BoxE::Leaf { id, parent } => format!("{},{}", id, show_opt(parent)), BoxE::Nil => "nil".into() }),
+        ("DecOnlyA", [id, p]) => rt(&DecOnlyA { id: id.parse().ok()?, m: opt_u8(p)? }, |x| format!("{},{}", x.id, show_opt(&x.m))),
+        ("DecOnlyM", [id, p]) => rt(&DecOnlyM { id: id.parse().ok()?, m: opt_u8(p)? }, |x| format!("{},{}", x.id, show_opt(&x.m))),
+        ("AliasA", [id, p]) => rt(&AliasA { id: id.parse().ok()?, m: opt_u8(p)? }, |x| format!("{},{}", x.id, show_opt(&x.m))),
+        ("EncOnlyA", [id, p]) => {
+            let v = EncOnlyA { id: id.parse().ok()?, m: opt_u8(p)? };
+            let b = minicbor::to_vec(&v).ok()?;
+            let mut d = minicbor::Decoder::new(&b);
+            match d.decode::<EncOnlyA>() {
+                Ok(x) => format!("{} len={} dec={},{} pos={}", hex(&b), b.len(), x.id, show_opt(&x.m), d.position()),
+                Err(e) => format!("{} len={} dec=err:{} pos={}", hex(&b), b.len(), dclass(&e), d.position())
+            }
+        }
         ("BoxMid", [p, id]) => rt(&BoxMid { parent: Box::new(opt_u8(p)?), id: id.parse().ok()? }, |x| format!("{},{}", show_opt(&x.parent), x.id)),
         ("FltA", [id, a, b]) => rt(&FltA { id: id.parse().ok()?, a: f32::from_bits(u32::from_str_radix(a, 16).ok()?), b: f64::from_bits(u64::from_str_radix(b, 16).ok()?) },
             |x| format!("{},{:08x},{:016x}", x.id, x.a.to_bits(), x.b.to_bits())),
